@@ -178,6 +178,8 @@ Proof.
     exact (exec_write c w st hk v idx r HW Hfuse Hr).
   - (* OSwap *)
     destruct (N.eqb_spec pr 0) as [->|]; [|discriminate]. exact (exec_swap c w st v1 i v2 j r HW Hfuse Hr).
+  - (* OLazyDown *)
+    exact (exec_lazy_down c w st depth v idx r Hwf HW Hfuse Hr).
 Qed.
 
 (** ** One [run_step] (what the harness and the extracted model execute per script step) *)
@@ -261,6 +263,7 @@ Proof.
          apply sp_take_nx in E0; injection H as <-; destruct (s_out r0 =? 0); cbn [s_nx s_out]; lia);
     try (unfold sp_write in H; crush H; cbn; split; lia);
     try (unfold sp_swap in H; crush H; cbn; split; lia);
+    try (unfold sp_lazy_down in H; crush H; cbn; split; lia);
     crush H; cbn; split; lia.
 Qed.
 Lemma spec_nx_ge c st nx o r : spec_step c st nx o = Some r -> nx <= s_nx r.
@@ -585,7 +588,9 @@ Definition ex_ops : list op :=
        the announcement alone) *)
     OSplice Erased 9 (BIncluded 1) (BExcluded 2) [] FinDrop RWrap 3 None 1;
     OSplice Typed 9 (BIncluded 0) (BExcluded 1) [(true, KDown)] FinDrop RBox 1 None 4;
-    OSplice Erased 8 (BIncluded 0) (BExcluded 0) [] FinDrop RWrap 0 None 2 ].
+    OSplice Erased 8 (BIncluded 0) (BExcluded 0) [] FinDrop RWrap 0 None 2;
+    (* at(1).lazy_clone().lazy_clone().downcast::<T>(): one Clone, the caller's; out of range: panics *)
+    OLazyDown 2 9 1; OLazyDown 1 9 7 ].
 
 Example ex_spec_defined : exists rs, spec_run ex_cfg [] 1 ex_ops = Some rs /\ length rs = length ex_ops.
 Proof. eexists. split; [vm_compute; reflexivity|reflexivity]. Qed.
@@ -615,7 +620,7 @@ Example ex_outcomes :
      (0,0,[]); (0,0,[]); (2,1,[]); (2,1,[]); (2,3,[]);
      (0,0,[45; 46]); (0,0,[44; 47]); (0,0,[49; 50; 48]); (0,0,[52]);
      (0,0,[]); (0,0,[]); (2,1,[]);
-     (0,0,[1]); (0,0,[1; 1; 56; 0; 56]); (2,3,[])].
+     (0,0,[1]); (0,0,[1; 1; 56; 0; 56]); (2,3,[]); (0,0,[62]); (2,1,[])].
 Proof. vm_compute. reflexivity. Qed.
 
 (** ** Corollaries in the vocabulary of the properties *)
